@@ -85,7 +85,32 @@ def main():
                     (d.year, d.month, d.day, d.hour, d.minute, d.second) != fields:
                 raise Fail('frame-decode:' + label, '%s timestamp decoded as %r, '
                            'expected UTC fields %r' % (label, d, fields))
+        wire_oracle(case['sec'], micro // 1000)
         return got, out
+
+    def wire_oracle(sec, ms):
+        """what a peer may send: the instant as whole seconds, and - the decoder reads
+        anything above 0xFFFFFFFF as milliseconds - as milliseconds (also a far-future
+        one); the decoded value must denote that instant in every zone"""
+        for v in (sec, sec * 1000 + ms, (sec * 50 + 7) * 1000 + ms):
+            is_ms = v > 0xFFFFFFFF
+            want_us = v * 1000 if is_ms else v * 1000000
+            raw = v.to_bytes(8, 'big')
+            tab = decode.field_table(b'\x00\x00\x00\x0b\x01tT' + raw)[1]
+            for label, (n, out) in (('decode.timestamp', decode.timestamp(raw)),
+                                    ('by_type', decode.by_type(raw, 'timestamp')),
+                                    ('table value', (8, tab['t']))):
+                if type(out) is not datetime.datetime or out.tzinfo is None or \
+                        out.utcoffset() != datetime.timedelta(0) or n != 8:
+                    raise Fail('decode-not-utc-aware', '%s of %d == %r' %
+                               (label, v, out))
+                got_us = canon.epoch_seconds(out) * 1000000 + out.microsecond
+                if abs(got_us - want_us) > (500 if is_ms else 0):
+                    raise Fail('decode-wire:' + ('ms' if is_ms else 's'),
+                               '%s of the wire value %d (%s) == %r, which is %d us away '
+                               'from the instant sent' %
+                               (label, v, 'milliseconds' if is_ms else 'seconds', out,
+                                got_us - want_us))
 
     def pair_oracle(case):
         """two aware datetimes with the same wall time in the repeated DST hour (equal by
